@@ -222,7 +222,7 @@ func solve(P *Prog, o *Obligation, timeoutMs int, all bool) *Result {
 			}
 		}
 	}
-	if !o.Cover && len(P.usedRec) > 0 && !all {
+	if !o.Cover && len(P.usedRec) > 0 {
 		seen := map[string]bool{full: true}
 		for _, hide := range []int{2, 3, 1} {
 			sc := o.scriptV(P, true, hide)
@@ -292,8 +292,21 @@ func solve(P *Prog, o *Obligation, timeoutMs int, all bool) *Result {
 	for _, jb := range jobs {
 		stageOf[fmt.Sprintf("%s/%d", jb.sd.name, jb.variant)] = stage(jb)
 	}
+	var grace <-chan time.Time // cross-solver mode: after the first proof the others get 5 s more, not the whole budget
 	for i := 0; i < len(jobs); i++ {
-		a := <-ch
+		var a ans
+		select {
+		case a = <-ch:
+		case <-grace:
+			cancel()
+			if res.Solver == "" {
+				res.Solver = strings.Join(verdicts, ",")
+			}
+			return res
+		}
+		if all && a.verdict == "unsat" && grace == nil {
+			grace = time.After(5 * time.Second)
+		}
 		if stageOf[fmt.Sprintf("%s/%d", a.name, a.variant)] == 0 {
 			pending0--
 			if pending0 == 0 {
